@@ -650,5 +650,17 @@ func runC15(args []string) {
 		}
 		k++
 	}
+	// statement-level races of outbox reads with commits and worker passes (c15_race.go); numbered after the
+	// generated histories so that the numbers of the cases above do not depend on them
+	nRace := 24
+	if f.Tier == "thorough" {
+		nRace = 300
+	}
+	for _, c := range c15RaceCases(f.Seed, nRace) {
+		if f.Wants(k) && !rn.hung {
+			rn.runRace(k, verifx.CaseSeed(f.Seed, k), c)
+		}
+		k++
+	}
 	out.Flush()
 }
